@@ -111,6 +111,8 @@ def canon(fact):
             r = {"lt": d < 0, "le": d <= 0, "eq": d == 0}[k]
             return r == t
         return ("sign", key, fn)
+    if k == "variant_in":
+        return ("fixed", None, lambda v: True)
     if k == "variant":
         key = "%s is %s" % (show(strip(a[1]), 300), a[2])
         return ("bool", key, lambda v, t=t: v == t)
